@@ -99,7 +99,8 @@ def resolve_type_rules(ctx, rep, prop="C05", builtin_precedence=True):
             k, kind = fields.get(0), fields.get(1)
             if k == "IMPORT_MATCH.Some.0":
                 n_item += 1
-                o3 = (cm.get(("FQN", k)) == "None" or cm.get(("FN", "type_.name")) == "None") or not builtin_precedence
+                # the built-in question is asked about the MATCHED PATH (android.os.IBinder is the built-in, demo.IBinder is the project's item)
+                o3 = cm.get(("FQN", k)) == "None" or not builtin_precedence
                 if kind == ("adt", RESOLVED, "UnknownImport", ()):
                     o1 = cm.get(("DEFINED", k)) == "None"
                 else:
@@ -118,7 +119,12 @@ def resolve_type_rules(ctx, rep, prop="C05", builtin_precedence=True):
             n_android += 1
             a = dict(val[3]).get(0)
             ok = isinstance(a, tuple) and a[0] == "field" and isinstance(a[1], tuple) and a[1][0] in ("FQN", "FN") and a[2] == "Some.0" and cm.get(a[1]) == "Some"
-            msg = "a built-in classification must be the answer of a built-in lookup (by name or qualified name)"
+            if ok and cm.get("IMPORT_MATCH") == "Some":
+                # an import matched: only the matched path decides whether this is the built-in (an imported project item that merely has a built-in's simple name resolves through its import)
+                ok = a[1] == ("FQN", "IMPORT_MATCH.Some.0")
+            elif ok:
+                ok = a[1][1] == "type_.name"
+            msg = "a built-in classification must be the answer of a built-in lookup: on the matched import path (by qualified name) when an import matched, on the written name otherwise"
         else:
             msg = "unexpected classification %s" % fmt_label(val)
         rep.check(ok, "D", key + "|order", w, "path [%s] assigns %s: %s" % (desc, fmt_label(val), msg), sample={"path": desc, "assigned": fmt_label(val)})
